@@ -46,30 +46,39 @@ PROPERTY = "C18"
 LEVEL = "exploration"
 RULE = (
     "one work item = one configuration (estimator SMM|GPB1, number of models, model layout on a line in units of the "
-    "innovation sigma, prune threshold, convergence percentage, per-model covariance variant, sigma-point redraw, "
-    "driver direct|agent_serial|agent_parallel); inside it EVERY observation history over the alphabet {at model 0, "
-    "at model 1, midway, 6 sigma beyond the last model, 1000 sigma beyond it, no observation} (first step always "
-    "observed, symbols with equal truth offsets merged) is executed breadth-first as a tree up to the announced depth "
-    "or until closure, from pickled snapshots of the real filter/agent; after each predict and each update every "
-    "clause is compared with the reference model started from the state the real object held before the operation. "
-    "A tree node is non-trivial iff in that update a model likelihood underflowed to zero or the total mass fell below "
-    "1e-15 (documented reset), or a model was pruned, or estimation closed; distinct by construction (different "
-    "history or configuration). Where the real EstimateAgent raises while estimation is still open (recorded "
-    "finding) the harness repeats the step with the filter's ADAPTIVE_ESTIMATION_START flag cleared so that the "
-    "remaining clauses are still explored."
+    "innovation sigma, prune threshold, convergence percentage, per-model covariance variant, mix ratio, driver "
+    "direct|agent_serial|agent_parallel); inside it EVERY observation history over the alphabet {at model 0, at "
+    "model 1, midway, 6 sigma beyond the last model, 1000 sigma beyond it, no observation} (first step always "
+    "observed - MMAE only starts on an observation; symbols with equal truth offsets merged; the measurement shape "
+    "M in {1,2,3(two-sensor stack),4(radar-like, drives SMM pre-weighting)} rotates with the step) is executed as a "
+    "tree up to the announced depth or until closure, from pickled snapshots of the real filter/agent; after each "
+    "predict and each update every clause is compared with the reference model started from the state the real "
+    "object held before the operation (one forecast probe on a copy at step 2). A tree node is non-trivial iff in "
+    "that update a model likelihood underflowed to zero or the total mass fell below 1e-15 (documented reset), or a "
+    "model was pruned, or estimation closed; every elemental check at such a node counts; distinct by construction "
+    "(different history or configuration). states = distinct (model ids, probabilities to 11 digits, time, flags) "
+    "reached, transitions = executed predict+update steps, traces = maximal histories. Where the real "
+    "EstimateAgent raises while estimation is still open (recorded finding F-C18-2) the harness repeats the step "
+    "with the filter's ADAPTIVE_ESTIMATION_START flag cleared so that the remaining clauses are still explored."
 )
 ASSUMPTIONS = [
     "numpy dense linear algebra and scipy.stats.chi2 are the reference arithmetic",
-    "on a linear system the unscented filter equals the Kalman filter (subject of C06; re-checked here per model "
-    "with the tuning alpha=1, beta=2, kappa=3-n; the no-redraw variant uses the spread P- - Q as documented in C06)",
+    "on a linear system the unscented filter without sigma-point redraw (repository default) equals the Kalman "
+    "filter whose measurement spread is P- - Q (documented no-redraw variant, subject of C06); re-checked here per "
+    "model with the tuning alpha=1, beta=2, kappa=3-n. resample=True is not used: its gain is the open C06 finding",
     "julianDateToDatetime (C05) is only required not to raise; the observation stubs ignore the datetime",
     "the hypothesis states come from the harness: AdaptiveFilter._calculateNominalStates / "
     "_generateHypothesisManeuvers / _generateHypothesisStates and the module-level fetchObservationsByJDInterval are "
-    "replaced (database + Lambert targeting are outside this property); everything else of initialize() is real",
+    "replaced (database + Lambert targeting are outside this property; the fake query returns one earlier "
+    "observation, as the database of a running scenario would); _createModels is wrapped to number the models; "
+    "everything else of initialize() / fromConfig / the factory is real. The scaled-covariance variant assembles the "
+    "filter by hand exactly as initialize() does and then rescales the models' covariances",
     "the documented uniform reset (total mass < numpy.finfo(float).resolution = 1e-15) is accepted as designed "
-    "behaviour although it also fires for representable masses; it is counted separately in the outcomes",
+    "behaviour although it also fires for representable masses (all models > ~8 sigma from the observation); it is "
+    "counted separately in the outcomes (reset_representable_mass)",
     "for GPB1 (which merges all models every step by construction) 'the surviving model' on closure is the merged "
     "estimate (moment-matched mixture)",
+    "SMM pre-weighting |1 - e_i/sum(e)| (left unnormalised) is taken as the documented prior of the first update",
 ]
 EXPECT_MIN_NONTRIVIAL = 20000
 
@@ -426,8 +435,10 @@ def bounds(tier, seed):
         "observation_shapes_direct": SHAPES_DIRECT,
         "observation_shapes_agent": SHAPES_AGENT,
         "prune_thresholds": THRESHOLDS,
-        "convergence_percentages": PERCENTAGES if tier == "quick" else PERCENTAGES_T,
+        "convergence_percentages": PERCENTAGES if tier == "quick" else {"n<=3": PERCENTAGES_T, "n>3": PERCENTAGES},
         "mix_ratios": MIX_RATIOS if tier == "quick" else MIX_RATIOS_T,
+        "covariance_variants": ["same (real initialize)", "scaled (1, 1.5, 2 x P by model index mod 3)"],
+        "sigma_point_redraw": False,
         "depths": sorted({(c["mode"], c["n"], c["depth"]) for c in cs}),
         "configurations": len(cs),
         "phase_seed": seed,
